@@ -74,6 +74,8 @@ def run(rep, work, tier, seed, props, replay=None):
     # mixed precision inside one layer (e.g. float32 biases with float64 weights): every gradient still has ITS tensor's dtype
     layer_tasks += [{"kind": "layer", "layer": l, "dtype": "float64", "seed": 100 + i, "pad": i % 2, "mixed": mx}
                     for i, (l, mx) in enumerate(itertools.product(["conv", "batchnorm", "gru", "margin_ranking"], [1, 2]))]
+    layer_tasks += [{"kind": "layer", "layer": l, "dtype": dt, "seed": i}
+                    for l in ("setshape", "setshape_untracked", "setshape_view", "setshape_untracked_view", "setshape_of_view", "setshape_untracked_of_view") for dt in ("float64", "float32") for i in range(4)]
     if replay is not None and "task" in replay:
         seed_tasks, red_tasks, layer_tasks = [], [], []
         {"seed": seed_tasks, "reduce": red_tasks, "layer": layer_tasks}[replay["task"]["kind"]].append(replay["task"])
